@@ -14,7 +14,9 @@ struct SecArg {
 };
 // ("[]" is the bracketed spelling of the empty name: group-less as well)
 static const SecArg SEC_ARGS[] = {{nullptr, ""},   {"", ""},       {"A", "A"},         {"[A]", "A"},
-                                  {"B", "B"},      {"[B]", "B"},   {"Sec C", "Sec C"}, {"[Sec C]", "Sec C"}, {"[]", ""}};
+                                  {"B", "B"},      {"[B]", "B"},   {"Sec C", "Sec C"}, {"[Sec C]", "Sec C"}, {"[]", ""},
+                                  // two different names with the same djb2 hash (33*'a'+'b' == 33*'b'+'A')
+                                  {"ab", "ab"},    {"bA", "bA"}};
 static const uint32_t N_SEC_ARGS = sizeof SEC_ARGS / sizeof SEC_ARGS[0];
 
 inline const std::vector<std::string> &hist_keys() {
